@@ -161,6 +161,19 @@ pub fn check_run(case: &Case, run: &Run) -> Result<(bool, bool), Fail> {
         return Err(Fail::new("final-sequence", format!("final sequence number is {}, {} updates were accepted", run.final_sequence, expected_commits.len())));
     }
 
+    // Blocking updates with a valid pair that returned: (position of the return in the trace, thread, base time).
+    // "A snapshot is at least as recent as every update that completed before it began" speaks of the
+    // calls, accepted or not: an update that returns without committing has found the base time at or above its own.
+    let mut completed_updates: Vec<(usize, usize, u64)> = vec![];
+    for (tid, (prog, results)) in case.programs.iter().zip(run.results.iter()).enumerate() {
+        for (i, (op, r)) in prog.iter().zip(results.iter()).enumerate() {
+            if let (Op::Update(t) | Op::UpdateUnwinding(t), OpResult::Updated) = (op, r) {
+                if let Some(e) = run.trace.iter().position(|e| matches!(e, Event::OpEnd { tid: t2, op: o } if *t2 == tid && *o == i)) {
+                    completed_updates.push((e, tid, *t));
+                }
+            }
+        }
+    }
     let mut snapshot_during_commit = false;
     let mut any_snapshot = false;
     for (tid, (prog, results)) in case.programs.iter().zip(run.results.iter()).enumerate() {
@@ -192,6 +205,21 @@ pub fn check_run(case: &Case, run: &Run) -> Result<(bool, bool), Fail> {
                         return Err(Fail::new("backwards", format!("thread {tid}: snapshot base time went from {last_seen} back to {base}")));
                     }
                     last_seen = *base;
+                    if let Some(b) = begin {
+                        // The thread's own completed updates happen-before its snapshot; other threads' do in
+                        // schedule order when no stale read was taken anywhere in the execution.
+                        for (e, utid, t) in &completed_updates {
+                            if *e < b && (*utid == tid || run.stale_reads == 0) && *base < *t {
+                                return Err(Fail::new(
+                                    "stale:update-returned-before",
+                                    format!(
+                                        "thread {tid} snapshot returned base time {base} although update({t}) by thread {utid} had returned before it began{}",
+                                        if *utid == tid { " (its own update)" } else { " (no stale read in this execution)" }
+                                    ),
+                                ));
+                            }
+                        }
+                    }
                     if let Some(Event::OpBegin { seq_view, seq_latest, .. }) = begin.map(|b| &run.trace[b]) {
                         // Everything that happens-before the snapshot is in the thread's view of the sequence word.
                         let known = f.commit_base[*seq_view];
@@ -361,6 +389,8 @@ fn bounded_preemption_cases(preemptions: usize) -> Vec<Case> {
         vec![vec![Op::Snapshot], vec![Op::Update(4)], vec![Op::TryUpdate(6)]],
         vec![vec![Op::TryUpdate(2), Op::Snapshot], vec![Op::Update(3), Op::Snapshot]],
         vec![vec![Op::UpdateBad(4), Op::Update(3), Op::Snapshot], vec![Op::Update(2), Op::TryUpdate(5), Op::Snapshot]],
+        // Two blocking writers, one of them between two of the other's base times, then its own snapshot.
+        vec![vec![Op::Update(2), Op::Update(5)], vec![Op::Update(3), Op::Snapshot]],
     ];
     let mut out = vec![];
     for p in programs {
@@ -398,7 +428,7 @@ pub fn run(ctx: &Ctx, rep: &mut Report) {
     let pre = ctx.tier.pick(2, 3);
     engine::enumerate(ctx, rep, "bounded-preemptions", bounded_preemption_cases(pre).into_iter(), check_case);
     rep.sub_set("bounded-preemptions", "max_preemptions", json!(pre));
-    rep.sub_set("bounded-preemptions", "what", json!("five fixed programs x every schedule with up to max_preemptions switch points (run lengths from {0,1,2,3,4,5,6,8,10,13}), latest-only reads"));
+    rep.sub_set("bounded-preemptions", "what", json!("six fixed programs x every schedule with up to max_preemptions switch points (run lengths from {0,1,2,3,4,5,6,8,10,13}), latest-only reads"));
     rep.sub_set("bounded-preemptions", "exhaustive", json!(true));
     let cases = ctx.share(ctx.tier.pick(24_000, 2_400_000));
     engine::drive(ctx, rep, "random", case_strategy(3, 3), cases, check_case);
@@ -417,7 +447,7 @@ fn replay(_ctx: &Ctx, _group: &str, case: &Value) -> CaseResult {
 pub fn def() -> PropDef {
     PropDef {
         id: "C13",
-        rule: "A case is (2..3 thread programs of 1..3 operations from snapshot / update(t) / try_update(t) / sequence with t from a small non-monotone set (plus 0, u64::MAX, base times within 100 s of the machine's own clock on either side - resolved when the case runs - and the base times whose valid voucher is all zeroes / one / all ones / the top bit only), and (one operation in eleven) update / try_update with a voucher that does not match the base time, which the crate rejects by panicking inside the critical section - the lock is then poisoned and the next writer recovers; and a valid update made from a destructor while the thread unwinds from an unrelated panic, which is an update like any other; a schedule: a list of (thread choice, uninterrupted run length) segments; a list of reads-from choices). Each logical thread is an OS thread that only runs while it holds the harness's baton, handed over at every hooked atomic load/store and lock/try_lock/unlock (vouched_time verif_sync hook), so the generated schedule fully determines the interleaving; atomic operations execute against a view-based release/acquire memory model owned by the harness: a load may read any message at or above the thread's view of that location (the generated choice picks which), Acquire loads join the message's released view, Relaxed operations transfer nothing, lock/unlock are acquire/release - so the stale reads a weakened ordering would permit are generated even though the host is x86. Oracles: no panic (the crate's internal voucher check is its own tearing detector); every snapshot pair is the epoch pair or a pair passed to some update; per-thread snapshot base times never decrease (own accepted updates included); a snapshot's base time is >= that of every commit in the thread's view of the sequence word when it began (happens-before), and, in executions without any stale read, >= that of every commit completed before it began; replaying the critical sections in order through the monotone filter (a rejected pair changes nothing; the section after a panic is the poison recovery) predicts exactly the commit stores, every try_update return value, and the final pair and sequence number read after joining. writer-laps-reader biases towards long writer runs between a reader's loads; bounded-preemptions enumerates every schedule with <= 2 (3) preemptions for five fixed programs. Non-trivial: a case with a snapshot during which a commit store occurred, or in which a non-latest read was taken. Distinct: hash of the serialised case / by enumeration.",
+        rule: "A case is (2..3 thread programs of 1..3 operations from snapshot / update(t) / try_update(t) / sequence with t from a small non-monotone set (plus 0, u64::MAX, base times within 100 s of the machine's own clock on either side - resolved when the case runs - and the base times whose valid voucher is all zeroes / one / all ones / the top bit only), and (one operation in eleven) update / try_update with a voucher that does not match the base time, which the crate rejects by panicking inside the critical section - the lock is then poisoned and the next writer recovers; and a valid update made from a destructor while the thread unwinds from an unrelated panic, which is an update like any other; a schedule: a list of (thread choice, uninterrupted run length) segments; a list of reads-from choices). Each logical thread is an OS thread that only runs while it holds the harness's baton, handed over at every hooked atomic load/store and lock/try_lock/unlock (vouched_time verif_sync hook), so the generated schedule fully determines the interleaving; atomic operations execute against a view-based release/acquire memory model owned by the harness: a load may read any message at or above the thread's view of that location (the generated choice picks which), Acquire loads join the message's released view, Relaxed operations transfer nothing, lock/unlock are acquire/release - so the stale reads a weakened ordering would permit are generated even though the host is x86. Oracles: no panic (the crate's internal voucher check is its own tearing detector); every snapshot pair is the epoch pair or a pair passed to some update; per-thread snapshot base times never decrease (own accepted updates included); a snapshot's base time is >= that of every commit in the thread's view of the sequence word when it began (happens-before), and, in executions without any stale read, >= that of every commit completed before it began; a snapshot is also >= the base time of every blocking update call with a valid pair that had returned before it began, accepted or not (the thread's own always; another thread's when the execution took no stale read); replaying the critical sections in order through the monotone filter (a rejected pair changes nothing; the section after a panic is the poison recovery) predicts exactly the commit stores, every try_update return value, and the final pair and sequence number read after joining. writer-laps-reader biases towards long writer runs between a reader's loads; bounded-preemptions enumerates every schedule with <= 2 (3) preemptions for six fixed programs. Non-trivial: a case with a snapshot during which a commit store occurred, or in which a non-latest read was taken. Distinct: hash of the serialised case / by enumeration.",
         assumptions: &[
             "the memory model is the promise-free release/acquire fragment: every execution it produces is allowed by the C++20/Rust model; load-buffering behaviours that need promises are not generated; SeqCst, if introduced, is executed as 'read latest + full view transfer'",
             "stores are appended at the end of the modification order (writers are serialised by the lock)",
